@@ -100,8 +100,9 @@ def run(repo, chk, tier):
     chk.trusted_base[:] = ["AST->sympy translator sa/sym.py (tensor ops mapped to numpy object arrays)", "sympy ring normaliser / factor_list", "composition lemmas stated in the rule texts (induction over the steps; product of factor-wise bounds)"]
     chk.assume("domain: masses positive, positive Q value at every level (m0 = m1 + m2 + t, t > 0): tf.where(p2 <= 0, 0, p2) takes its second branch; boost velocity not exactly zero")
     chk.assume("uniform variates are modelled as free quantities in their range: cos(theta) in (-1, 1) with sin(theta) = sqrt(1 - cos^2) as in the code, phi = 2 atan(tt), mass variates r_k = u_k / (1 + u_k)")
-    step_identities(repo, chk)
-    roles(repo, chk)
+    split_protocol = step_identities(repo, chk)
+    cascade(repo, chk)
+    roles(repo, chk, split_protocol)
     count(repo, chk)
     bound(repo, chk, tier)
     chain(repo, chk)
@@ -167,8 +168,17 @@ def step_identities(repo, chk):
             raise AnalysisError("generate_momentum_i is not a single-path kernel any more: %s" % e)
 
     out = call([])
-    if not (isinstance(out, list) and len(out) == 2 and all(isinstance(p, np.ndarray) and p.shape == (4,) for p in out)):
+    if not (isinstance(out, list) and len(out) in (1, 2) and all(isinstance(p, np.ndarray) and p.shape == (4,) for p in out)):
         raise AnalysisError("generate_momentum_i(first step) no longer returns [particle, recoil] four-vectors")
+    split_protocol = len(out) == 1
+    if split_protocol:
+        # the step no longer adds the recoil itself when it is handed nothing to boost: the caller must seed the list.
+        # The recoil identities are then taken from the step applied to the earlier system at rest, and E6-cascade
+        # decides the cascade as a whole (massless daughters included)
+        chk.info("E6-step: generate_momentum_i([]) returns the new particle only; recoil identities taken from the boosted earlier system")
+        out = call([np.array([m1, 0, 0, 0], dtype=object)])
+        if not (isinstance(out, list) and len(out) == 2):
+            raise AnalysisError("generate_momentum_i(first step) no longer returns [particle, recoil] four-vectors")
     p, r = out
     if odd_phase:
         # the azimuth is not 2 pi u': report it and continue with the angle the code uses as the free azimuth
@@ -208,10 +218,95 @@ def step_identities(repo, chk):
     for k, nm in enumerate("txyz"):
         oblige(repo, chk, "E6-recoil", "rest_vector(A, P + Q) == rest_vector(A, P) + rest_vector(A, Q), component %s" % nm, rPQ[k], rP[k] + rQ[k], rv.key, "linear-%s" % nm)
     oblige(repo, chk, "E6-recoil", "rest_vector keeps the invariant mass of the boosted vector", M2(rP), M2(P), rv.key, "mass")
+    return split_protocol
+
+
+# --------------------------------------------------------------------------------------- E6-cascade
+_CASCADES = [
+    # (m0, [daughter masses], [system masses drawn by generate_mass])  - all two-body momenta are rational
+    (5, [sp.Rational(3, 2), sp.Rational(3, 2)], []),
+    (5, [1, 0], []),
+    (5, [0, 1], []),
+    (5, [0, 0], []),
+    (5, [0, 1, 0], [3]),
+    (5, [1, 0, 0], [2]),
+    (5, [0, 0, 1], [3]),
+    (5, [0, 0, 1, 0], [2, 3]),
+    (5, [1, 0, 0, 0], [1, 3]),
+]
+
+
+def cascade(repo, chk):
+    """generate_momentum as a whole (however the work is split between it and its step function) at exact rational
+    points, massless daughters in every position included"""
+    chk.rule("E6-cascade", "generate_momentum interpreted as a whole with the real two-body step, at exact rational points (n = 2..4; massive and massless daughters in every position, the last one included; rational directions): every momentum is finite, lies on its own mass shell, and the momenta add up to (m0, 0, 0, 0)")
+    cls = repo.cls(K + "PhaseSpaceGenerator")
+    gm = cls.methods.get("generate_momentum")
+    if gm is None:
+        raise AnalysisError("PhaseSpaceGenerator.generate_momentum vanished")
+    dirs = [(sp.Rational(3, 5), sp.Rational(1, 2)), (sp.Rational(-5, 13), sp.Integer(2)), (sp.Rational(8, 17), sp.Rational(-1, 3))]
+    n_ok = 0
+    for m0, masses, systems in _CASCADES:
+        counter = [0]
+        phis = {}
+
+        def numeric(tr, d, args, kwargs, n):
+            if d.split(".")[-1] == "uniform":
+                k = counter[0] // 2
+                odd = counter[0] % 2
+                counter[0] += 1
+                c_, t_ = dirs[k % len(dirs)]
+                if not odd:
+                    return (c_ + 1) / 2
+                ph = sp.Symbol("PHI%d" % k, real=True)
+                phis[ph] = t_
+                return ph / (2 * sp.pi)
+            return NotImplemented
+
+        def trig(kind):
+            def f(tr, a):
+                a = sp.sympify(a)
+                if a in phis:
+                    t_ = phis[a]
+                    return (1 - t_ ** 2) / (1 + t_ ** 2) if kind == "cos" else 2 * t_ / (1 + t_ ** 2)
+                raise AnalysisError("generate_momentum: the azimuth handed to cos / sin is %s, not 2 pi u'" % a)
+            return f
+
+        hooks = {"numeric_call": numeric, "allow_shape": True, "stack_as_array": True, "unary:cos": trig("cos"), "unary:sin": trig("sin"), "allow_attr_store": True}
+        tr = Translator(repo, hooks=hooks, where_policy=policy, max_depth=8)
+        so = SelfObj(cls, {"m_mass": [sp.sympify(x) for x in masses], "m_nt": sp.Integer(len(masses)), "m0": sp.Integer(m0)})
+        label = "m0=%s -> %s%s" % (m0, masses, (" via systems %s" % systems) if systems else "")
+        try:
+            out = tr.call_fn(gm, [[sp.sympify(x) for x in systems], sp.Integer(1)], self_obj=so)
+        except Unmodelled as e:
+            raise AnalysisError("generate_momentum not interpretable at %s: %s" % (label, e))
+        if not (isinstance(out, list) and len(out) == len(masses) and all(isinstance(q, np.ndarray) and q.shape == (4,) for q in out)):
+            raise AnalysisError("generate_momentum at %s does not return one four-vector per daughter" % label)
+        bad = None
+        vals = []
+        for q, m_ in zip(out, masses):
+            comp = [sp.nsimplify(sp.simplify(sp.sympify(x))) for x in q]
+            if any(x.has(sp.nan, sp.zoo, sp.oo, -sp.oo) or not x.is_number for x in comp):
+                bad = "a momentum of the daughter of mass %s is not finite: %s" % (m_, [str(x) for x in comp])
+                break
+            if sp.simplify(M2(comp) - sp.sympify(m_) ** 2) != 0:
+                bad = "the daughter of mass %s comes out with E^2 - |p|^2 = %s" % (m_, sp.simplify(M2(comp)))
+                break
+            vals.append(comp)
+        if bad is None:
+            tot = [sp.simplify(sum(v[k] for v in vals)) for k in range(4)]
+            if tot != [sp.Integer(m0), 0, 0, 0]:
+                bad = "the momenta add up to %s, not (%s, 0, 0, 0)" % (tot, m0)
+        chk.oblige("E6-cascade", label + ": finite, on shell, balanced", bad is None)
+        if bad is None:
+            n_ok += 1
+        else:
+            chk.violation("E6-cascade", gm.key, "cascade:%s" % "-".join(str(x) for x in masses), "%s: %s" % (label, bad), file=PS, line=gm.lineno)
+    chk.require_count("E6-cascade", len(_CASCADES))
 
 
 # --------------------------------------------------------------------------------------- S-roles
-def roles(repo, chk):
+def roles(repo, chk, split_protocol=False):
     chk.rule("S-roles", "generate_momentum (n = 2..6, step abstracted): step i is (parent system of level i+1) -> (system of level i) + particle -(i+2); the chain starts from the last particle and ends at m0; output in declaration order")
     cls = repo.cls(K + "PhaseSpaceGenerator")
     gm = cls.methods.get("generate_momentum")
@@ -238,9 +333,11 @@ def roles(repo, chk):
             pl = bound_.get(names[4], []) if len(names) > 4 else []
             calls.append((m0_, m1_, m2_))
             ret = [("particle", m2_)]
-            if len(pl) == 0:
+            if len(pl) == 0 and not split_protocol:
                 ret.append(("particle", m1_))
             for x in pl:
+                if isinstance(x, np.ndarray) and x.shape == (4,) and all(sp.sympify(c_) == 0 for c_ in x[1:]):
+                    x = ("particle", sp.sympify(x[0]))   # a particle put at rest by the caller: its mass is its energy
                 ret.append(x)
             return ret
 
